@@ -108,6 +108,8 @@ def _rules():
             lambda R, c, rid: wire_rules._wire(R, c, rid, ["Block", "Update", "IdSet", "IdRanges", "Range"]),
             lambda R, c, rid: shared.string_column_units(R, c, rid),
             lambda R, c, rid: accessors.options_codec(R, c, rid),
+            lambda R, c, rid: c09_prims.rule_json(R, c, rid),
+            lambda R, c, rid: c09_prims.rule_varint(R, c, rid),
         ],
         "merge": [
             lambda R, c, rid: c08.rule_e(R, c, rid),
